@@ -125,6 +125,7 @@ func (n *bnode) start() {
 	n.incNo++
 	n.inc = fmt.Sprintf("%s#%d", n.name, n.incNo)
 	info := protocol.MetadataBroker{NodeID: n.id, Host: "broker-" + n.name, Port: 9092}
+	w.sim.SetupNode = n.inc
 	var s3c storage.S3Client = kafsim.S3{St: w.s3}
 	if w.s3r != nil {
 		s3c = newDualS3Client(kafsim.S3{St: w.s3}, kafsim.S3{St: w.s3r})
